@@ -951,6 +951,8 @@ _SER_TAIL = "            for kv in k, v:\n                w(pack(\"!H\", len(kv)
 _SER_GEN_TAIL = "            for kv in k, v:\n                yield pack(\"!H\", len(kv))\n                yield kv\n        yield pack(\"!H\", 0)\n"
 
 MUTANTS = [
+    Mutant("flattening-generator-emits-payload-before-its-prefix", AMP, "            for kv in k, v:\n                w(pack(\"!H\", len(kv)))\n                w(kv)\n", "            L.extend(piece for kv in (k, v) for piece in (kv, pack(\"!H\", len(kv))))\n", expect_rule="box/wire-form"),
+    Mutant("flattening-generator-filters-out-empty-values", AMP, "            for kv in k, v:\n                w(pack(\"!H\", len(kv)))\n                w(kv)\n", "            L.extend(piece for kv in (k, v) if kv for piece in (pack(\"!H\", len(kv)), kv))\n", expect_rule="box/wire-form"),
     # each row of an AmpList is converted into a container of its own
     Mutant("amplist-rows-accumulate-in-one-box-in-a-loop", AMP, "        return b\"\".join(\n            [\n                _objectsToStrings(objects, self.subargs, Box(), proto).serialize()\n                for objects in inObject\n            ]\n        )\n",
            "        collected = Box()\n        chunks = []\n        for objects in inObject:\n            _objectsToStrings(objects, self.subargs, collected, proto)\n            chunks.append(collected.serialize())\n        return b\"\".join(chunks)\n",
@@ -1023,6 +1025,8 @@ MUTANTS = [
 ]
 
 SILENT = [
+    Silent("pair-emitted-by-one-flattening-generator-expression", AMP, "            for kv in k, v:\n                w(pack(\"!H\", len(kv)))\n                w(kv)\n", "            L.extend(piece for kv in (k, v) for piece in (pack(\"!H\", len(kv)), kv))\n"),
+    Silent("pair-emitted-through-map-and-a-nested-comprehension", AMP, "            for kv in k, v:\n                w(pack(\"!H\", len(kv)))\n                w(kv)\n", "            L.extend([piece for prefix, kv in zip(map(len, (k, v)), (k, v)) for piece in (pack(\"!H\", prefix), kv)])\n"),
     Silent("amplist-rows-in-a-loop-with-a-box-per-row", AMP, "        return b\"\".join(\n            [\n                _objectsToStrings(objects, self.subargs, Box(), proto).serialize()\n                for objects in inObject\n            ]\n        )\n",
            "        chunks = []\n        for objects in inObject:\n            rowBox = Box()\n            _objectsToStrings(objects, self.subargs, rowBox, proto)\n            chunks.append(rowBox.serialize())\n        return b\"\".join(chunks)\n"),
     Silent("serialize-validates-every-pair-then-encodes-in-a-second-pass", AMP, "            for kv in k, v:\n                w(pack(\"!H\", len(kv)))\n                w(kv)\n        w(pack(\"!H\", 0))\n",
